@@ -147,6 +147,12 @@ def sqrtOp {F : Type} [SqrtOps F] (io : Codec' F) (op : String) (args : List Str
   | "legendre", [a] => do let a ← io.parse a; pure (showLeg (SqrtOps.legendre a))
   | "sgn0", [a] => do let a ← io.parse a; pure (showSgn (SqrtOps.sgn0 a))
   | "lt", [a, b] => do let a ← io.parse a; let b ← io.parse b; pure (showBool (SqrtOps.lt a b))
+  | "cmpall", [a, b] => do
+      let x ← io.parse a; let y ← io.parse b
+      let c : Int := if SqrtOps.lt x y then -1 else if SqrtOps.lt y x then 1 else 0
+      let mx := if c == 1 then x else y
+      let mn := if c == 1 then y else x
+      pure (s!"{c} {c} {showBool (c == -1)} {showBool (c != 1)} {showBool (c == 1)} {showBool (c != -1)} {io.shw mx} {io.shw mn}")
   | "sgnxor", [a, b] => pure (showSgn (Sgn0.xor (if a == "1" then .negative else .nonNegative) (if b == "1" then .negative else .nonNegative)))
   | _, _ => none
 
